@@ -8,6 +8,9 @@ Spec: spec/pure/Content.tla, six small machines selected by the constant Machine
   decode  the incremental decoder of Content.iter_text fed chunk by chunk - every valid unit string x every cutting
   ctype   ContentType render / parse round trip (oracle: ContentType.__eq__ after _make_content_type(repr(ct)))
   snap    copies made when details are gathered vs later changes of the source
+  dechist HISTORIES of iter_text()/as_text() calls over two contents of one charset: generators started, advanced with
+          next(), abandoned mid-way, whole decodes, truncated contents whose decode raises - a completed decode of a valid
+          content equals the decode of its whole bytes whatever happened to other iterations (per-iteration decoder state)
   eq      Content.__eq__ rows;  text  text_content / json_content rows over a class alphabet
 TLC checks each machine's mechanism against its meaning and exports every behaviour / row of the bounded instance;
 each is executed against the real code (concretised with seeded representatives per class).
@@ -308,6 +311,140 @@ def decode_nontrivial(sc):
 
 
 # ---------------------------------------------------------------------------------------------------------
+# decoder histories: several iter_text() generators / as_text() calls over two contents of one charset
+
+
+def conc_content(cn, rnd):
+    """(chunks, expected text or None) for an abstract content; a truncated one ends inside a character."""
+    units = cn["units"]
+    groups, cur = [], []
+    for u in units:
+        if u != "C" and cur:
+            groups.append(cur)
+            cur = []
+        cur.append(u)
+    if cur:
+        groups.append(cur)
+    need = {"A": 1, "L2": 2, "L3": 3, "L4": 4}
+    data, text = b"", ""
+    for g in groups:
+        ch = pick(REPS[need[g[0]]], rnd)
+        enc = ch.encode("utf-8")
+        data += enc[: len(g)]
+        if len(g) == len(enc):
+            text += ch
+    if len(data) != len(units):
+        raise tlc.MachineryError("C16 dechist: concretisation does not respect the unit shape")
+    if cn["valid"]:
+        if data.decode("utf-8") != text:
+            raise tlc.MachineryError("C16 dechist: oracle disagreement")
+    else:
+        try:
+            data.decode("utf-8")
+        except UnicodeDecodeError:
+            text = None
+        else:
+            raise tlc.MachineryError("C16 dechist: a truncated content decodes")
+    return cut(data, cn["cuts"]), text
+
+
+def replay_dechist(beh, rnd, drift, charset="utf8"):
+    """Replays StartIter / NextChunk / Abandon / DecodeAll on two real Content objects of one charset.
+    Verdict only on VALID contents: a completed as_text() / a generator driven to its end yields the decode of that
+    content's whole bytes; it never raises.  Returns None or (step, clause, expected, observed)."""
+    from testtools.content import Content
+    from testtools.content_type import ContentType
+
+    conts, texts, valid = {}, {}, {}
+    for i, cn in enumerate(beh["init"]["cont"]):
+        chunks, text = conc_content(cn, rnd)
+        conts[i + 1] = Content(ContentType("text", "plain", {"charset": charset}), lambda chunks=chunks: list(chunks))
+        texts[i + 1] = text
+        valid[i + 1] = cn["valid"]
+    gens, pieces = {}, {}
+    for n, h in enumerate(beh["hist"]):
+        a, c = h["a"], h["c"]
+        if a == "StartIter":
+            gens[c] = conts[c].iter_text()
+            pieces[c] = []
+        elif a == "Abandon":
+            g = gens.pop(c, None)
+            if g is not None:
+                g.close()
+                del g
+        elif a == "DecodeAll":
+            try:
+                got = conts[c].as_text()
+            except Exception as ex:
+                got = ex
+            if valid[c]:
+                if isinstance(got, Exception):
+                    return (n, "as_text-of-valid-content-raised-after-history", texts[c], repr(got))
+                if got != texts[c]:
+                    return (n, "as_text-equals-decode-of-whole-after-history", texts[c], got)
+            elif not isinstance(got, Exception):
+                drift("dechist: a truncated content decoded without error: %r" % (got,))
+        elif a == "NextChunk":
+            g = gens.get(c)
+            if g is None:
+                continue  # the real generator ended earlier than the model's (granularity is not compared)
+            try:
+                got = next(g)
+                ended = False
+            except StopIteration:
+                got, ended = None, True
+            except Exception as ex:
+                got, ended = ex, True
+            if isinstance(got, Exception):
+                gens.pop(c, None)
+                if valid[c]:
+                    return (n, "iter_text-of-valid-content-raised-after-history", texts[c], repr(got))
+                continue
+            if not ended:
+                pieces[c].append(got)
+                if h["res"] != "stop":
+                    continue
+                # the model is at its end: drain what the real generator still has
+                try:
+                    pieces[c].extend(g)
+                except Exception as ex:
+                    gens.pop(c, None)
+                    if valid[c]:
+                        return (n, "iter_text-of-valid-content-raised-after-history", texts[c], repr(ex))
+                    continue
+                ended = True
+            gens.pop(c, None)
+            if valid[c]:
+                if h["res"] != "stop":
+                    # ended before the model did: compare at once, the bytes are all consumed or lost
+                    pass
+                if "".join(pieces[c]) != texts[c]:
+                    return (n, "iter_text-equals-decode-of-whole-after-history", texts[c], "".join(pieces[c]))
+    for g in gens.values():
+        g.close()
+    return None
+
+
+def dechist_nontrivial(beh):
+    """Some iteration was left incomplete (raised, abandoned, or still suspended) before a later decode ran."""
+    live, dirty = set(), False
+    for h in beh["hist"]:
+        if h["a"] == "StartIter":
+            live.add(h["c"])
+        elif h["a"] == "Abandon":
+            live.discard(h["c"])
+            dirty = True
+        elif h.get("res") in ("raise",):
+            live.discard(h["c"])
+            dirty = True
+        elif h.get("res") == "stop":
+            live.discard(h["c"])
+        if h["a"] in ("DecodeAll", "NextChunk") and (dirty or len(live - {h["c"]}) > 0):
+            return True
+    return False
+
+
+# ---------------------------------------------------------------------------------------------------------
 # content type
 
 CLASS_REPS = {
@@ -548,6 +685,16 @@ def random_text(rnd):
 
 # ---------------------------------------------------------------------------------------------------------
 
+def guarded(fn, *args):
+    """An exception out of the code under test is an observation (clause <fn>-raised), not a harness failure."""
+    try:
+        return fn(*args)
+    except tlc.MachineryError:
+        raise
+    except Exception as ex:
+        return (fn.__name__.replace("check_", "").replace("_value", "") + "-raised", "no exception", repr(ex))
+
+
 READ_ACTIONS = ["Create", "Mutate", "IterBytes", "IterBuffered", "Enter", "Open", "Seek", "Read", "Yield", "Stop"]
 
 
@@ -560,11 +707,14 @@ def run(tier, pid="C16"):
         "inputs enumerated by TLC from spec/pure/Content.tla, exhaustive up to the bounds of the ct_*.cfg files: "
         "read-loop scenarios (length x chunk size x seek origin/offset before-at-after EOF x buffer_now x stream/file x "
         "short reads x re-iteration / source mutation), decoder inputs (every valid UTF-8-shaped unit string x every cutting "
-        "incl. empty chunks; no-charset = ISO-8859-1), ContentType parameter sets over the class alphabet, gather/mutate "
+        "incl. empty chunks; no-charset = ISO-8859-1), decoder histories (every sequence of StartIter/NextChunk/Abandon/"
+        "DecodeAll calls up to the bound over two contents of one charset, truncated contents included; deeper ones by "
+        "tlc -simulate), ContentType parameter sets over the class alphabet, gather/mutate "
         "behaviours, equality rows (type x bytes x chunking), text/json rows over a class alphabet; each concretised with "
         "seeded representatives and executed against the real code, expected value from the spec. One evaluation = one "
         "(input, concretisation). Non-trivial: read = something to read and (seek | short read | re-iteration | mutation "
-        "| length multiple of chunk size); decode = a cut inside a multi-byte sequence or an empty chunk; ctype = a "
+        "| length multiple of chunk size); decode = a cut inside a multi-byte sequence or an empty chunk; dechist = a decode that runs after "
+        "another iteration was abandoned, raised or is still suspended; ctype = a "
         "parameter value with a non-alphanumeric class; snap = a mutation after a gather; eq = differing chunkings; "
         "text = a non-ASCII / NUL / escaped class. Distinct by input.",
     )
@@ -574,6 +724,9 @@ def run(tier, pid="C16"):
     rep.assume("ContentType domain: lower-case token type/subtype, lower-case token parameter names, values free of ' and \"; "
                "a charset value containing a comma is executed but kept out of the verdict (documented work-around in _make_content_type)")
     rep.assume("texts exclude lone surrogates (not encodable as UTF-8)")
+    rep.assume("decoder histories: verdict only on VALID contents (completed as_text() / completed iteration equals the decode "
+               "of the content's whole bytes and does not raise); what a truncated content does is DRIFT; the number of "
+               "pieces a generator yields is not compared")
     rep.assume("what a second iteration over a stream yields when no seek offset was requested is not compared (DRIFT only); "
                "a stream handed over at a position > 0 without seek offset is expected to be read from that position")
     rnd = random.Random(rep.seed)
@@ -653,6 +806,40 @@ def run(tier, pid="C16"):
         if n == 0:
             raise tlc.MachineryError("C16 decode: nothing exported")
 
+        # ---- decoder histories (two contents of one charset; interleaved / abandoned / failing iterations)
+        r = tlc.run_tlc("pure", "MCContent", "ct_neg_dechist.cfg", workers=2, timeout=600)
+        if r.violated != "PerIterationDecode":
+            raise tlc.MachineryError("C16 ct_neg_dechist.cfg: expected PerIterationDecode violated, got %r %r" % (r.violated, r.error))
+        rep.add_tlc(r, "ct_neg_dechist.cfg (sharedCached decoder: PerIterationDecode violated as expected)")
+        tl("ct_mc_dechist.cfg", None)
+        jobs = [("ct_exp_dechist.cfg" if not big else "ct_exp_dechist_big.cfg", {}, ["StartIter", "NextChunk", "Abandon", "DecodeAll"]),
+                ("ct_sim_dechist.cfg", dict(simulate=dict(num=60 if not big else 1500, depth=12), seed=rep.seed + 5), None)]
+        for cfg, kw, acts in jobs:
+            r = tl(cfg, acts, **kw)
+            n = 0
+            for beh in tlc.exported(r):
+                n += 1
+                cs = "utf8" if n % 5 else "utf-8"
+                try:
+                    bad = replay_dechist(beh, rnd, drift, cs)
+                except tlc.MachineryError:
+                    raise
+                except Exception as ex:
+                    bad = (len(beh["hist"]) - 1, "dechist-raised", None, repr(ex))
+                nt = dechist_nontrivial(beh)
+                if nt:
+                    smp("dechist", {"machine": "dechist", "contents": beh["init"]["cont"],
+                                    "calls": [(h["a"], h["c"], h.get("res")) for h in beh["hist"]]}, 4000)
+                rep.case(nontrivial_key=("dechist" + jdump(beh)) if nt else None)
+                rep.traces += 1
+                if bad:
+                    i, clause, exp, obs = bad
+                    rep.violation(clause, "dechist:%s" % clause,
+                                  {"machine": "dechist", "behaviour": {"init": beh["init"], "hist": beh["hist"][: i + 1]}, "charset": cs},
+                                  exp, obs)
+            if n == 0:
+                raise tlc.MachineryError("C16 %s: nothing exported" % cfg)
+
         # ---- content type
         cfgs = ["ct_exp_ctype_one.cfg", "ct_exp_ctype_pairs.cfg", "ct_exp_ctype_triple.cfg"] + (["ct_exp_ctype_one3.cfg"] if big else [])
         for cfg in cfgs:
@@ -704,7 +891,7 @@ def run(tier, pid="C16"):
         n = 0
         for row in tlc.exported(r):
             n += 1
-            bad = check_eq_row(row)
+            bad = guarded(check_eq_row, row)
             rw = row["row"]
             nt = rw["c1"] != rw["c2"] and (rw["d1"] or rw["d2"])
             if nt:
@@ -725,7 +912,7 @@ def run(tier, pid="C16"):
             nt = any(c != "ascii" for c in classes)
             for _ in range(2):
                 s = "".join(pick(TEXT_REPS[c], rnd) for c in classes)
-                bads = [check_text_value(s, row["nbytes"])] + [check_json_value(o) for o in json_shapes(s)]
+                bads = [guarded(check_text_value, s, row["nbytes"])] + [guarded(check_json_value, o) for o in json_shapes(s)]
                 if nt:
                     smp("text", {"machine": "text", "classes": classes, "text": s}, 400)
                 rep.case(nontrivial_key=("text" + jdump(classes)) if nt else None)
@@ -738,7 +925,7 @@ def run(tier, pid="C16"):
         # harness-generated full-range texts (the class alphabet cannot enumerate Unicode): same oracle
         for i in range(400 if not big else 30000):
             s = random_text(rnd)
-            for bad in [check_text_value(s)] + [check_json_value(o) for o in json_shapes(s)[:2]]:
+            for bad in [guarded(check_text_value, s)] + [guarded(check_json_value, o) for o in json_shapes(s)[:2]]:
                 if bad:
                     rep.violation(bad[0], "text-random:%s" % bad[0], {"machine": "text", "text": s}, bad[1], bad[2])
             rep.case(nontrivial_key="rnd" + s if s else None)
@@ -753,7 +940,7 @@ def run(tier, pid="C16"):
         import shutil
 
         shutil.rmtree(tmpdir, ignore_errors=True)
-    rep.samples = [samples[m] for m in ("read", "decode", "ctype", "snap", "eq", "text") if m in samples]
+    rep.samples = [samples[m] for m in ("read", "decode", "dechist", "ctype", "snap", "text", "eq") if m in samples]
     rep.exhaustive = False
     rep.extra["explanation"] = ("exhaustive over the abstract inputs of each ct_exp_*.cfg instance; class representatives and the "
                                 "full-range random texts are seeded samples")
@@ -782,6 +969,8 @@ def replay_file(path, pid="C16"):
         bad = check_eq_row(sc["row"])
     elif m == "text":
         bad = check_text_value(sc["text"]) or check_json_value(sc["text"])
+    elif m == "dechist":
+        bad = replay_dechist(sc["behaviour"], random.Random(0), lambda t: print("DRIFT: " + t[:200]), sc.get("charset", "utf8"))
     elif m == "decode":
         print("replay: decode scenarios are replayed by re-running the check with the same VERIF_SEED")
         return 2
